@@ -54,7 +54,7 @@ Lemma inv_bound s x : bm_Inv s -> In x (bm_abs s) -> x < 65536.
 Proof.
   unfold bm_Inv, bm_abs, bm_iter_all. destruct (bm_c s) as [R cap|m|runs cap].
   - intros (_ & _ & Hb & _) Hx. rewrite arr_values_rev in Hx. apply Hb. apply in_rev. exact Hx.
-  - intros _ Hx. apply in_bits_values in Hx. tauto.
+  - intros _ Hx. apply (proj1 (in_bits_values _ _)) in Hx. tauto.
   - intros (H & _) Hx. pose proof (runs_values_bounds _ _ _ H Hx). lia.
 Qed.
 
@@ -131,10 +131,10 @@ Proof.
   destruct (bit_of m v) eqn:B; cbn [negb fst snd].
   - split; [|split; [exact Hx|]].
     + unfold bm_Inv. cbn [bm_c bm_card]. split; [apply bits_set_bytes; exact Hb|lia].
-    + split; [discriminate|]. intro H. exfalso. apply H, Hin. reflexivity.
+    + split; [discriminate|]. intro H. exfalso. apply H. apply (proj2 Hin). reflexivity.
   - split; [|split; [exact Hx|]].
     + unfold bm_Inv. cbn [bm_c bm_card]. split; [apply bits_set_bytes; exact Hb|]. rewrite u32_small by lia. lia.
-    + split; [intros _ H; apply Hin in H; discriminate|reflexivity].
+    + split; [intros _ H; apply (proj1 Hin) in H; discriminate|reflexivity].
 Qed.
 
 Lemma add_array_spec card R cap v : arr_ok card R cap -> v < 65536 ->
@@ -152,9 +152,9 @@ Proof.
     cbn [fst snd]. split; [|split].
     + unfold bm_Inv. cbn [bm_c bm_card]. repeat split; assumption.
     + intro x. unfold bm_abs, bm_iter_all. cbn [bm_c]. rewrite arr_values_rev. split; [tauto|].
-      intros [->|H]; [apply F; lia|exact H].
-    + split; [discriminate|]. intro H. exfalso. apply H, F. lia.
-  - assert (Hnot : ~ In v (rev R)) by (intro H; apply F in H; lia).
+      intros [->|H]; [apply (proj1 F); lia|exact H].
+    + split; [discriminate|]. intro H. exfalso. apply H. apply (proj1 F). lia.
+  - assert (Hnot : ~ In v (rev R)) by (intro H; apply (proj2 F) in H; lia).
     destruct P as [_ P2]. assert (Hr : (r < 0)%Z) by lia. specialize (P2 Hr). cbv zeta in P2.
     destruct P2 as (Pp & PL & PR). set (p := Z.to_nat (- (r + 1))) in *.
     destruct (4096 <=? card) eqn:E4.
@@ -166,12 +166,12 @@ Proof.
       assert (Hm2 : popsum m = card) by (unfold m; rewrite set_all_zero_popsum by assumption; rewrite lenN_rev; lia).
       assert (Hm3 : bm_bits_values m = rev R) by (apply set_all_zero_values; assumption).
       assert (Hbit : bit_of m v = false).
-      { destruct (bit_of m v) eqn:B; [|reflexivity]. exfalso. apply Hnot. rewrite <- Hm3. apply in_bits_values. tauto. }
+      { destruct (bit_of m v) eqn:B; [|reflexivity]. exfalso. apply Hnot. rewrite <- Hm3. apply (proj2 (in_bits_values _ _)). tauto. }
       pose proof (popsum_set m v Hv) as Q. rewrite Hbit in Q.
       split; [|split].
       * unfold bm_Inv. cbn [bm_c bm_card]. split; [apply bits_set_bytes; exact Hm1|]. rewrite u32_small by lia. lia.
       * intro x. unfold bm_abs, bm_iter_all. cbn [bm_c]. rewrite in_bits_values, bits_set_bit.
-        rewrite <- Hm3 at 2. rewrite in_bits_values.
+        rewrite <- Hm3. rewrite in_bits_values.
         destruct (N.eqb_spec x v) as [->|Hne]; cbn [orb]; [tauto|]. split; [tauto|]. intros [Ee|H]; [congruence|exact H].
       * tauto.
     + (* insertion *)
@@ -187,7 +187,7 @@ Proof.
         repeat split.
         -- lia.
         -- rewrite Hrev. apply sorted_insert; assumption.
-        -- intros x Hx. apply in_rev in Hx. rewrite Hrev in Hx. apply in_insert in Hx.
+        -- intros x Hx. apply in_rev in Hx. rewrite Hrev in Hx. apply (proj1 (in_insert _ _ _ _)) in Hx.
            destruct Hx as [->|Hx]; [exact Hv|apply Hb, in_rev; exact Hx].
         -- rewrite Hl. apply ensure_capacity_ge.
       * intro x. unfold bm_abs, bm_iter_all. cbn [bm_c]. rewrite arr_values_rev, Hrev. apply in_insert.
@@ -230,7 +230,9 @@ Proof.
   - apply add_bits_spec; assumption.
   - pose proof (runs_inv_card_le _ _ _ H) as Hle.
     destruct (4096 <=? bm_card s) eqn:E.
-    + destruct (runs_as_bits _ _ _ H) as [Hb Hval]. rewrite <- Hval. apply add_bits_spec; assumption.
+    + destruct (runs_as_bits _ _ _ H) as [Hb Hval].
+      pose proof (add_bits_spec _ _ v Hb Hv) as Q. rewrite Hval in Q. exact Q.
     + assert (Hcap : bm_card s <= bm_u32 (bm_card s + 1)) by (rewrite u32_small by lia; lia).
-      destruct (runs_as_array _ _ _ _ H Hcap) as [Ha Hval]. rewrite <- Hval. apply add_array_spec; assumption.
+      destruct (runs_as_array _ _ _ _ H Hcap) as [Ha Hval].
+      pose proof (add_array_spec _ _ _ v Ha Hv) as Q. rewrite Hval in Q. exact Q.
 Qed.
